@@ -1333,7 +1333,8 @@ class BaseImage(metaclass=ImageMeta):
         duration = self._frame_duration
         image_it = ImageIterator(self, repeat, "", cached)
         image_it._animator = image_it._animate(img, alpha, fmt, style_args)
-        cursor_up = CURSOR_UP % (lines - 1)
+        # `CSI 0 A` moves the cursor up by one line
+        cursor_up = CURSOR_UP % (lines - 1) if lines > 1 else ""
         cursor_down = CURSOR_DOWN % lines
         interrupted = True
 
